@@ -46,15 +46,59 @@ Proof.
 Qed.
 
 (** Unfolding of the nested fixpoint [R]. *)
-Definition copyf limit st df : drop -> list item -> res str :=
-  match df with O => fun _ _ => cde | S df' => R limit st df' (limit - 3) end.
-Definition extf limit st df sf : drop -> list item -> res str :=
-  match sf with O => fun _ _ => cde | S sf' => R limit st df sf' end.
+Definition copyf limit sp st df : drop -> list item -> res str :=
+  match df with O => fun _ _ => cde | S df' => R limit sp st df' (limit - 3) end.
+Definition extf limit sp st df sf : drop -> list item -> res str :=
+  match sf with O => fun _ _ => cde | S sf' => R limit sp st df sf' end.
 
-Lemma R_unfold limit st df sf dr its :
-  R limit st df sf dr its
-  = cat_map (item_step st (copyf limit st df) (extf limit st df sf) dr) its.
+Lemma R_unfold limit sp st df sf dr its :
+  R limit sp st df sf dr its
+  = cat_map (item_step sp st (copyf limit sp st df) (extf limit sp st df sf) dr) its.
 Proof. destruct df, sf; reflexivity. Qed.
+
+(** Blank-block suppression keeps errors and only ever erases text. *)
+Lemma tblock_cde sp b : tblock sp b cde = cde.
+Proof. unfold tblock. destruct (sp && blank_body b); reflexivity. Qed.
+
+Lemma tblock_oof sp b : tblock sp b OutOfFuel = OutOfFuel.
+Proof. unfold tblock. destruct (sp && blank_body b); reflexivity. Qed.
+
+Lemma tblock_not_cde sp b X : tblock sp b X <> cde -> X <> cde.
+Proof. intros H E. apply H. rewrite E. apply tblock_cde. Qed.
+
+Lemma tblock_not_oof sp b X : tblock sp b X <> OutOfFuel -> X <> OutOfFuel.
+Proof. intros H E. apply H. rewrite E. apply tblock_oof. Qed.
+
+Lemma tblock_keeps_not_oof sp b X : X <> OutOfFuel -> tblock sp b X <> OutOfFuel.
+Proof.
+  unfold tblock. destruct (sp && blank_body b); [|auto].
+  destruct X; simpl; try discriminate. intro H. contradiction.
+Qed.
+
+(** Induction over items through the bodies of blocks and wrappers. *)
+Section ItemInd.
+  Variable P : item -> Prop.
+  Hypothesis HText : forall s, P (Text s).
+  Hypothesis HBlk : forall n r b e, Forall P b -> P (Blk n r b e).
+  Hypothesis HSuper : P Super.
+  Hypothesis HExt : forall n, P (Ext n).
+  Hypothesis HQuiet : P Quiet.
+  Hypothesis HWrap : forall k b, Forall P b -> P (Wrap k b).
+  Fixpoint item_ind' (it : item) : P it :=
+    let go := fix go (l : list item) : Forall P l :=
+                match l with
+                | [] => Forall_nil P
+                | x :: l' => Forall_cons x (item_ind' x) (go l')
+                end in
+    match it with
+    | Text s => HText s
+    | Blk n r b e => HBlk n r b e (go b)
+    | Super => HSuper
+    | Ext n => HExt n
+    | Quiet => HQuiet
+    | Wrap k b => HWrap k b (go b)
+    end.
+End ItemInd.
 
 (** * B. termination of the chain walk *)
 
@@ -324,65 +368,85 @@ Proof.
   - absurd_oof.
 Qed.
 
-Definition spec_item (f : nat) (ch : list template) (sup : list bdef) (it : item) : res str :=
+Definition spec_item (f : nat) (sp : bool) (ch : list template) (sup : list bdef) (it : item)
+  : res str :=
   match it with
   | Text s => Ok s
+  | Quiet => Ok []
   | Ext _ => cde
-  | Super => match sup with [] => Ok [] | d :: sup' => spec_items f ch sup' (b_body d) end
+  | Super =>
+      match sup with
+      | [] => Ok []
+      | d :: sup' => tblock sp (b_body d) (spec_items f sp ch sup' (b_body d))
+      end
   | Blk n req body _ =>
       match defs ch n with
-      | [] => if req then reqerr else spec_items f ch [] body
-      | d :: sup' => if b_req d then reqerr else spec_items f ch sup' (b_body d)
+      | [] => if req then reqerr else tblock sp body (spec_items f sp ch [] body)
+      | d :: sup' =>
+          if b_req d then reqerr else tblock sp (b_body d) (spec_items f sp ch sup' (b_body d))
       end
+  | Wrap _ body => tblock sp body (spec_items f sp ch sup body)
   end.
 
-Lemma spec_items_S f ch sup it rest :
-  spec_items (S f) ch sup (it :: rest)
-  = do a <- spec_item f ch sup it;; do b <- spec_items f ch sup rest;; Ok (a ++ b).
+Lemma spec_items_S f sp ch sup it rest :
+  spec_items (S f) sp ch sup (it :: rest)
+  = do a <- spec_item f sp ch sup it;; do b <- spec_items f sp ch sup rest;; Ok (a ++ b).
 Proof. destruct it; reflexivity. Qed.
 
-Lemma spec_items_nil f ch sup : spec_items (S f) ch sup [] = Ok [].
+Lemma spec_items_nil f sp ch sup : spec_items (S f) sp ch sup [] = Ok [].
 Proof. reflexivity. Qed.
 
-Lemma spec_item_mono_aux f ch :
-  (forall sup its r, spec_items f ch sup its = r -> r <> OutOfFuel ->
-                     forall f', f <= f' -> spec_items f' ch sup its = r) ->
-  forall sup it r, spec_item f ch sup it = r -> r <> OutOfFuel ->
-                   forall f', f <= f' -> spec_item f' ch sup it = r.
+Lemma tblock_mono sp b (X Y : res str) r :
+  (X <> OutOfFuel -> Y = X) -> tblock sp b X = r -> r <> OutOfFuel -> tblock sp b Y = r.
 Proof.
-  intros IH sup it r H Hr f' Hle. destruct it as [s|n req body e| |n]; simpl in *; try assumption.
-  - destruct (defs ch n) as [|d sup'].
-    + destruct req; [assumption|]. eapply IH; eauto.
-    + destruct (b_req d); [assumption|]. eapply IH; eauto.
-  - destruct sup as [|d sup']; [assumption|]. eapply IH; eauto.
+  intros H E Hr. rewrite H; [assumption|].
+  intro EX. apply Hr. rewrite <- E, EX. apply tblock_oof.
 Qed.
 
-Lemma spec_items_mono : forall f ch sup its r,
-  spec_items f ch sup its = r -> r <> OutOfFuel ->
-  forall f', f <= f' -> spec_items f' ch sup its = r.
+Lemma spec_item_mono_aux f sp ch :
+  (forall sup its r, spec_items f sp ch sup its = r -> r <> OutOfFuel ->
+                     forall f', f <= f' -> spec_items f' sp ch sup its = r) ->
+  forall sup it r, spec_item f sp ch sup it = r -> r <> OutOfFuel ->
+                   forall f', f <= f' -> spec_item f' sp ch sup it = r.
 Proof.
-  induction f as [|f IH]; intros ch sup its r H Hr f' Hle; [simpl in H; absurd_oof|].
+  intros IH sup it r H Hr f' Hle.
+  destruct it as [s|n req body e| |n| |k body]; simpl in *; try assumption.
+  - destruct (defs ch n) as [|d sup'].
+    + destruct req; [assumption|].
+      eapply tblock_mono; [|exact H|exact Hr]. intro N. eapply IH; eauto.
+    + destruct (b_req d); [assumption|].
+      eapply tblock_mono; [|exact H|exact Hr]. intro N. eapply IH; eauto.
+  - destruct sup as [|d sup']; [assumption|].
+    eapply tblock_mono; [|exact H|exact Hr]. intro N. eapply IH; eauto.
+  - eapply tblock_mono; [|exact H|exact Hr]. intro N. eapply IH; eauto.
+Qed.
+
+Lemma spec_items_mono : forall f sp ch sup its r,
+  spec_items f sp ch sup its = r -> r <> OutOfFuel ->
+  forall f', f <= f' -> spec_items f' sp ch sup its = r.
+Proof.
+  induction f as [|f IH]; intros sp ch sup its r H Hr f' Hle; [simpl in H; absurd_oof|].
   destruct f' as [|f']; [lia|]. assert (f <= f') as Hle' by lia.
   destruct its as [|it rest]; [exact H|].
   rewrite spec_items_S in *.
-  destruct (spec_item f ch sup it) as [a| | |] eqn:Ea; simpl in H.
-  - rewrite (spec_item_mono_aux f ch (IH ch) _ _ _ Ea) by (try discriminate; assumption). simpl.
-    destruct (spec_items f ch sup rest) as [b| | |] eqn:Eb; simpl in H;
-      try (rewrite (IH _ _ _ _ Eb) by (try discriminate; assumption); exact H).
+  destruct (spec_item f sp ch sup it) as [a| | |] eqn:Ea; simpl in H.
+  - rewrite (spec_item_mono_aux f sp ch (IH sp ch) _ _ _ Ea) by (try discriminate; assumption). simpl.
+    destruct (spec_items f sp ch sup rest) as [b| | |] eqn:Eb; simpl in H;
+      try (rewrite (IH _ _ _ _ _ Eb) by (try discriminate; assumption); exact H).
     exfalso; apply Hr; symmetry; exact H.
-  - rewrite (spec_item_mono_aux f ch (IH ch) _ _ _ Ea) by (try discriminate; assumption). exact H.
-  - rewrite (spec_item_mono_aux f ch (IH ch) _ _ _ Ea) by (try discriminate; assumption). exact H.
+  - rewrite (spec_item_mono_aux f sp ch (IH sp ch) _ _ _ Ea) by (try discriminate; assumption). exact H.
+  - rewrite (spec_item_mono_aux f sp ch (IH sp ch) _ _ _ Ea) by (try discriminate; assumption). exact H.
   - absurd_oof.
 Qed.
 
-Lemma spec_item_mono f ch sup it r :
-  spec_item f ch sup it = r -> r <> OutOfFuel ->
-  forall f', f <= f' -> spec_item f' ch sup it = r.
+Lemma spec_item_mono f sp ch sup it r :
+  spec_item f sp ch sup it = r -> r <> OutOfFuel ->
+  forall f', f <= f' -> spec_item f' sp ch sup it = r.
 Proof. apply spec_item_mono_aux. intros; eapply spec_items_mono; eauto. Qed.
 
-Lemma spec_inherit_mono f ld name r :
-  spec_inherit f ld name = r -> r <> OutOfFuel ->
-  forall f', f <= f' -> spec_inherit f' ld name = r.
+Lemma spec_inherit_mono f sp ld name r :
+  spec_inherit f sp ld name = r -> r <> OutOfFuel ->
+  forall f', f <= f' -> spec_inherit f' sp ld name = r.
 Proof.
   unfold spec_inherit. intros H Hr f' Hle.
   destruct (assoc name ld) as [leaf|]; [|assumption].
@@ -397,23 +461,27 @@ Qed.
 
 (** The specification is a partial function: whatever fuel makes it answer,
     the answer is the same. *)
-Theorem spec_inherit_deterministic f1 f2 ld name r1 r2 :
-  spec_inherit f1 ld name = r1 -> spec_inherit f2 ld name = r2 ->
+Theorem spec_inherit_deterministic f1 f2 sp ld name r1 r2 :
+  spec_inherit f1 sp ld name = r1 -> spec_inherit f2 sp ld name = r2 ->
   r1 <> OutOfFuel -> r2 <> OutOfFuel -> r1 = r2.
 Proof.
   intros H1 H2 N1 N2.
-  pose proof (spec_inherit_mono _ _ _ _ H1 N1 (Nat.max f1 f2) (Nat.le_max_l _ _)).
-  pose proof (spec_inherit_mono _ _ _ _ H2 N2 (Nat.max f1 f2) (Nat.le_max_r _ _)).
+  pose proof (spec_inherit_mono _ _ _ _ _ H1 N1 (Nat.max f1 f2) (Nat.le_max_l _ _)).
+  pose proof (spec_inherit_mono _ _ _ _ _ H2 N2 (Nat.max f1 f2) (Nat.le_max_r _ _)).
   congruence.
 Qed.
 
 (** * D. soundness of the render against the specification *)
 
-Definition spec_sup (f : nat) (ch : list template) (sup : list bdef) : res str :=
-  match sup with [] => Ok [] | d :: sup' => spec_items f ch sup' (b_body d) end.
+Definition spec_sup (f : nat) (sp : bool) (ch : list template) (sup : list bdef) : res str :=
+  match sup with
+  | [] => Ok []
+  | d :: sup' => tblock sp (b_body d) (spec_items f sp ch sup' (b_body d))
+  end.
 
 Section Sound.
   Variable limit : nat.
+  Variable sp : bool.
   Variable st : stacks.
   Variable ch : list template.
   Hypothesis Hst : forall n, stack_of st n = defs ch n.
@@ -422,91 +490,114 @@ Section Sound.
   Definition drop_ok (dr : drop) (sup : list bdef) : Prop :=
     match dr with
     | Own ps => ps = sup
-    | Outer th => th tt = cde \/ exists f, spec_sup f ch sup = th tt /\ th tt <> OutOfFuel
+    | Outer th => th tt = cde \/ exists f, spec_sup f sp ch sup = th tt /\ th tt <> OutOfFuel
     end.
 
   Definition fun_ok (g : drop -> list item -> res str) : Prop :=
     forall dr sup its r, drop_ok dr sup -> g dr its = r -> r <> cde ->
-      exists f, spec_items f ch sup its = r /\ r <> OutOfFuel.
+      exists f, spec_items f sp ch sup its = r /\ r <> OutOfFuel.
 
-  Lemma item_ok copy ext :
-    fun_ok copy -> fun_ok ext ->
-    forall dr sup it r, drop_ok dr sup -> item_step st copy ext dr it = r -> r <> cde ->
-      exists f, spec_item f ch sup it = r /\ r <> OutOfFuel.
-  Proof.
-    intros Hc He dr sup it r Hd H Hr.
-    destruct it as [s|n req body e| |n]; simpl in H.
-    - exists 0. subst. split; [reflexivity|discriminate].
-    - rewrite Hst in H. simpl. destruct (defs ch n) as [|d sup'].
-      + destruct req.
-        * exists 0. subst. split; [reflexivity|discriminate].
-        * eapply He; eauto. reflexivity.
-      + destruct (b_req d).
-        * exists 0. subst. split; [reflexivity|discriminate].
-        * eapply Hc; eauto. simpl.
-          destruct sup' as [|p ps].
-          -- right. exists 0. split; [reflexivity|discriminate].
-          -- destruct (res_cde_dec (ext (Own ps) (b_body p))) as [E|E]; [left; assumption|].
-             right. destruct (He (Own ps) ps (b_body p) _ eq_refl eq_refl E) as [f [Hf Hn]].
-             exists f. split; assumption.
-    - destruct dr as [ps|th]; simpl in Hd.
-      + subst ps. destruct sup as [|p ps]; simpl.
-        * exists 0. subst. split; [reflexivity|discriminate].
-        * eapply He; eauto. reflexivity.
-      + destruct Hd as [Hd|[f [Hf Hn]]]; [congruence|].
-        exists f. subst r. split; [|assumption]. destruct sup; exact Hf.
-    - congruence.
-  Qed.
+  Definition it_ok (g : item -> res str) (sup : list bdef) (it : item) : Prop :=
+    forall r, g it = r -> r <> cde -> exists f, spec_item f sp ch sup it = r /\ r <> OutOfFuel.
 
   Lemma cat_ok g sup :
-    (forall it r, g it = r -> r <> cde -> exists f, spec_item f ch sup it = r /\ r <> OutOfFuel) ->
-    forall its r, cat_map g its = r -> r <> cde ->
-      exists f, spec_items f ch sup its = r /\ r <> OutOfFuel.
+    forall its, Forall (it_ok g sup) its ->
+    forall r, cat_map g its = r -> r <> cde ->
+      exists f, spec_items f sp ch sup its = r /\ r <> OutOfFuel.
   Proof.
-    intros Hg. induction its as [|it rest IH]; intros r H Hr.
+    induction its as [|it rest IH]; intros HF r H Hr.
     - exists 1. simpl in H. subst. split; [reflexivity|discriminate].
-    - rewrite cat_map_cons in H.
+    - apply Forall_cons_iff in HF as [Hg HF']. specialize (IH HF').
+      rewrite cat_map_cons in H.
       destruct (g it) as [a|c p|k|] eqn:Ea; simpl in H.
-      + destruct (Hg it _ Ea) as [f1 [H1 _]]; [discriminate|].
+      + destruct (Hg _ Ea) as [f1 [H1 _]]; [discriminate|].
         destruct (cat_map g rest) as [b|c p|k|] eqn:Eb; simpl in H.
         * destruct (IH _ eq_refl) as [f2 [H2 _]]; [discriminate|].
           exists (S (Nat.max f1 f2)). rewrite spec_items_S.
-          rewrite (spec_item_mono _ _ _ _ _ H1) by (try discriminate; apply Nat.le_max_l). simpl.
-          rewrite (spec_items_mono _ _ _ _ _ H2) by (try discriminate; apply Nat.le_max_r). simpl.
+          rewrite (spec_item_mono _ _ _ _ _ _ H1) by (try discriminate; apply Nat.le_max_l). simpl.
+          rewrite (spec_items_mono _ _ _ _ _ _ H2) by (try discriminate; apply Nat.le_max_r). simpl.
           subst. split; [reflexivity|discriminate].
         * assert (LErr c p <> (cde : res str)) as Hn by (subst; assumption).
           destruct (IH _ eq_refl Hn) as [f2 [H2 _]].
           exists (S (Nat.max f1 f2)). rewrite spec_items_S.
-          rewrite (spec_item_mono _ _ _ _ _ H1) by (try discriminate; apply Nat.le_max_l). simpl.
-          rewrite (spec_items_mono _ _ _ _ _ H2) by (try discriminate; apply Nat.le_max_r). simpl.
+          rewrite (spec_item_mono _ _ _ _ _ _ H1) by (try discriminate; apply Nat.le_max_l). simpl.
+          rewrite (spec_items_mono _ _ _ _ _ _ H2) by (try discriminate; apply Nat.le_max_r). simpl.
           subst. split; [reflexivity|discriminate].
         * destruct (IH _ eq_refl) as [f2 [H2 _]]; [discriminate|].
           exists (S (Nat.max f1 f2)). rewrite spec_items_S.
-          rewrite (spec_item_mono _ _ _ _ _ H1) by (try discriminate; apply Nat.le_max_l). simpl.
-          rewrite (spec_items_mono _ _ _ _ _ H2) by (try discriminate; apply Nat.le_max_r). simpl.
+          rewrite (spec_item_mono _ _ _ _ _ _ H1) by (try discriminate; apply Nat.le_max_l). simpl.
+          rewrite (spec_items_mono _ _ _ _ _ _ H2) by (try discriminate; apply Nat.le_max_r). simpl.
           subst. split; [reflexivity|discriminate].
         * destruct (IH _ eq_refl) as [f2 [_ H2]]; [discriminate|]. exfalso. apply H2. reflexivity.
       + assert (LErr c p <> (cde : res str)) as Hn by (subst; assumption).
-        destruct (Hg it _ Ea Hn) as [f1 [H1 _]].
+        destruct (Hg _ Ea Hn) as [f1 [H1 _]].
         exists (S f1). rewrite spec_items_S, H1. simpl. subst. split; [reflexivity|discriminate].
-      + destruct (Hg it _ Ea) as [f1 [H1 _]]; [discriminate|].
+      + destruct (Hg _ Ea) as [f1 [H1 _]]; [discriminate|].
         exists (S f1). rewrite spec_items_S, H1. simpl. subst. split; [reflexivity|discriminate].
-      + destruct (Hg it _ Ea) as [f1 [_ H1]]; [discriminate|]. exfalso. apply H1. reflexivity.
+      + destruct (Hg _ Ea) as [f1 [_ H1]]; [discriminate|]. exfalso. apply H1. reflexivity.
+  Qed.
+
+  (** A body rendered through ast.BlockNode.render. *)
+  Lemma tblock_ok b X r (S : nat -> res str) :
+    tblock sp b X = r -> r <> cde ->
+    (X <> cde -> exists f, S f = X /\ X <> OutOfFuel) ->
+    exists f, tblock sp b (S f) = r /\ r <> OutOfFuel.
+  Proof.
+    intros H Hr HX. assert (X <> cde) as N by (eapply tblock_not_cde; rewrite H; exact Hr).
+    destruct (HX N) as [f [Hf Hn]]. exists f. rewrite Hf. split; [exact H|].
+    rewrite <- H. apply tblock_keeps_not_oof. exact Hn.
+  Qed.
+
+  Lemma item_ok copy ext :
+    fun_ok copy -> fun_ok ext ->
+    forall it dr sup, drop_ok dr sup -> it_ok (item_step sp st copy ext dr) sup it.
+  Proof.
+    intros Hc He. induction it as [s|n req body e IHb| |n| |k body IHb] using item_ind';
+      intros dr sup Hd r H Hr; simpl in H.
+    - exists 0. subst. split; [reflexivity|discriminate].
+    - rewrite Hst in H. simpl. destruct (defs ch n) as [|d sup'].
+      + destruct req.
+        * exists 0. subst. split; [reflexivity|discriminate].
+        * eapply tblock_ok; eauto. intro N. eapply He; eauto. reflexivity.
+      + destruct (b_req d).
+        * exists 0. subst. split; [reflexivity|discriminate].
+        * eapply tblock_ok; eauto. intro N. eapply Hc; eauto. simpl.
+          destruct sup' as [|p ps].
+          -- right. exists 0. split; [reflexivity|discriminate].
+          -- destruct (res_cde_dec (tblock sp (b_body p) (ext (Own ps) (b_body p)))) as [E|E];
+               [left; assumption|]. right.
+             destruct (tblock_ok (b_body p) _ _ (fun f => spec_items f sp ch ps (b_body p)) eq_refl E)
+               as [f [Hf Hn]].
+             { intro N'. eapply He; eauto. reflexivity. }
+             exists f. split; assumption.
+    - destruct dr as [ps|th]; simpl in Hd.
+      + subst ps. destruct sup as [|p ps]; simpl.
+        * exists 0. subst. split; [reflexivity|discriminate].
+        * eapply tblock_ok; eauto. intro N. eapply He; eauto. reflexivity.
+      + destruct Hd as [Hd|[f [Hf Hn]]]; [congruence|].
+        exists f. subst r. split; [|assumption]. destruct sup; exact Hf.
+    - congruence.
+    - exists 0. subst. split; [reflexivity|discriminate].
+    - simpl. destruct k.
+      + eapply tblock_ok; eauto. intro N.
+        apply (cat_ok (item_step sp st copy ext dr) sup body); [|reflexivity|exact N].
+        eapply Forall_impl; [|exact IHb]. intros it Hit. exact (Hit dr sup Hd).
+      + eapply tblock_ok; eauto. intro N. eapply He; eauto.
   Qed.
 
   Lemma R_sound_step df sf :
-    fun_ok (copyf limit st df) -> fun_ok (extf limit st df sf) -> fun_ok (R limit st df sf).
+    fun_ok (copyf limit sp st df) -> fun_ok (extf limit sp st df sf) -> fun_ok (R limit sp st df sf).
   Proof.
     intros Hc He dr sup its r Hd H Hr. rewrite R_unfold in H.
-    apply (cat_ok (item_step st (copyf limit st df) (extf limit st df sf) dr) sup) with (its := its);
+    apply (cat_ok (item_step sp st (copyf limit sp st df) (extf limit sp st df sf) dr) sup its);
       [|exact H|exact Hr].
-    intros it r' Hi Hr'. exact (item_ok _ _ Hc He dr sup it r' Hd Hi Hr').
+    apply Forall_forall. intros it _. exact (item_ok _ _ Hc He it dr sup Hd).
   Qed.
 
   Lemma fun_ok_cde : fun_ok (fun _ _ => cde).
   Proof. intros dr sup its r _ H Hr. congruence. Qed.
 
-  Lemma R_sound : forall df sf, fun_ok (R limit st df sf).
+  Lemma R_sound : forall df sf, fun_ok (R limit sp st df sf).
   Proof.
     induction df as [|df IHdf]; intro sf; induction sf as [|sf IHsf]; apply R_sound_step; simpl;
       auto using fun_ok_cde.
